@@ -15,6 +15,7 @@ HI = 1
 FLAGS = 3  # bit0: resolve_packages, bit1: replace_time_conditions
 LEVEL = 0
 YMAX = 1
+YOCC = 2
 PKG_POOL = ("[10]", "[UB3] O [13]", None, "[2P] X [14]", "[11] U [12]", "[15][901]")
 NPOOL = 3
 LEAVES = ("[5]", "[1P]", "[2P]", "[3P0..4]", "[UB1]", "[UB2]", "[UB3]")
@@ -119,7 +120,7 @@ def resolve(idx: int, t1: int, t2: int, t3: int, y0: int, y1: int, y2: int) -> b
         for k in used:
             table[k] = PKG_POOL[xs.pick(tsel[k], 0, NPOOL)]
     ys = [y0, y1, y2]
-    nocc = len(occ) if do_pkg else 0
+    nocc = min(len(occ), YOCC) if do_pkg else 0
     ysel = [xs.pick(ys[i], 0, YMAX + 1) if i < nocc else 0 for i in range(3)]
     env.setup(packages={k: v for k, v in table.items() if v is not None}, pkg_yields=ysel)
     desc = dict(idx=idx, t1=t1, t2=t2, t3=t3, y0=y0, y1=y1, y2=y2)
